@@ -3,6 +3,8 @@ import itertools
 
 from hypothesis import strategies as st
 
+from gen.common import weighted
+
 from oracles import refenc
 from vlib.core import SubCheck, Violation
 
@@ -188,11 +190,50 @@ def hrps():
                      st.text(alphabet=HRP_CHARS, min_size=1, max_size=83))
 
 
+_DIGIT_SYMBOLS = [i for i, ch in enumerate(refenc.CHARSET) if ch.isdigit()]
+_CASELESS_CACHE = {}
+
+
+def caseless_triple(hsel, vsel, g, start):
+    """a valid (hrp, version, program) whose whole address contains no letter at all: digit / punctuation hrp, a version and
+    program groups whose symbols are digits, and - found by search - a checksum made of digits too.  None if the bounded
+    search finds none."""
+    key = (hsel % 6, vsel % 4, g, start % 7)
+    if key in _CASELESS_CACHE:
+        return _CASELESS_CACHE[key]
+    hrp = ["42", "2", "_", "2024", "+-", "7"][key[0]]
+    ver = [5, 7, 10, 15][key[1]]
+    nbytes = g * 5 // 8
+    pad = g * 5 - nbytes * 8
+    found = None
+    if 2 <= nbytes <= 40 and pad < 5:
+        for c in range(key[3] * 100003, key[3] * 100003 + 40000):
+            groups, x = [], c
+            for _ in range(g):
+                groups.append(_DIGIT_SYMBOLS[x % 9])
+                x //= 9
+            if groups[-1] & ((1 << pad) - 1):
+                continue
+            prog = refenc.from5(groups)
+            if prog is None or len(prog) != nbytes:
+                continue
+            addr = refenc.segwit_encode(hrp, ver, bytes(prog))
+            if addr is not None and not any(ch.isalpha() for ch in addr):
+                found = {"hrp": hrp, "ver": ver, "prog": bytes(prog).hex()}
+                break
+    _CASELESS_CACHE[key] = found
+    return found
+
+
 def triples():
     ver = st.one_of(st.integers(0, 16), st.integers(0, 17), st.just(0), st.just(1))
     ln = st.one_of(st.sampled_from([1, 2, 20, 32, 39, 40, 41]), st.integers(0, 42))
-    return st.builds(lambda h, v, n, b: {"hrp": h, "ver": v, "prog": (b * 3)[:n].hex()},
-                     hrps(), ver, ln, st.binary(min_size=14, max_size=14))
+    plain = st.builds(lambda h, v, n, b: {"hrp": h, "ver": v, "prog": (b * 3)[:n].hex()},
+                      hrps(), ver, ln, st.binary(min_size=14, max_size=14))
+    # addresses without a single cased character (str.islower() / isupper() are both False for them)
+    caseless = st.builds(lambda h, v, g, s, fb: caseless_triple(h, v, g, s) or fb, st.integers(0, 5), st.integers(0, 3),
+                         st.sampled_from([4, 5, 8, 13, 16, 32]), st.integers(0, 6), plain)
+    return weighted((24, plain), (1, caseless))
 
 
 def _pyc_decode(hrp, s):
